@@ -2,6 +2,7 @@
 package c17
 
 import (
+	"encoding/json"
 	"fmt"
 	"strings"
 	"testing"
@@ -73,7 +74,22 @@ func gen(t *rapid.T) Case {
 		}
 	}
 	for i := 0; i < n; i++ {
-		switch rapid.IntRange(0, 2).Draw(t, "filekind") {
+		switch rapid.SampledFrom([]int{0, 0, 1, 1, 2, 2, 2, 3}).Draw(t, "filekind") {
+		case 3: // an overlapping extract: identical copies of some of the base file's points, plus points of its own
+			var fs []wm.FeatureS
+			for _, f := range base.Features {
+				if f.Point != nil && rapid.Bool().Draw(t, "shared") {
+					fs = append(fs, f.Clone())
+				}
+			}
+			cfgP := cfg
+			cfgP.MaxPaths, cfgP.MaxLoops, cfgP.MaxAreas, cfgP.MaxRelations = 0, 0, 0, 0
+			fs = append(fs, shift(wm.GenSet(t, cfgP).Features, uint64(1000*(i+1)))...)
+			if len(fs) == 0 {
+				continue
+			}
+			c.Files = append(c.Files, fs)
+			c.Overlay = append(c.Overlay, false)
 		case 0: // other namespaces
 			cfgB := cfg
 			cfgB.Namespaces, cfgB.TypedNamespaces = nsB, typed(nsB)
@@ -124,13 +140,21 @@ func check(c Case) vlib.Outcome {
 		return vlib.Outcome{Skip: true}
 	}
 	var all []wm.FeatureS
-	seen := map[b6.FeatureID]bool{}
+	seen := map[b6.FeatureID]string{}
+	overlapping := false
 	for _, fs := range c.Files {
+		inFile := map[b6.FeatureID]bool{}
 		for _, f := range fs {
-			if seen[f.ID.ID()] {
-				return vlib.Outcome{Skip: true, Classes: []string{"skipped:duplicate-id"}}
+			// the same point may be in several files (overlapping extracts), as identical copies
+			js, _ := json.Marshal(f)
+			if prev, ok := seen[f.ID.ID()]; ok {
+				if prev != string(js) || f.Point == nil || inFile[f.ID.ID()] {
+					return vlib.Outcome{Skip: true, Classes: []string{"skipped:duplicate-id"}}
+				}
+				overlapping = true
+				continue
 			}
-			seen[f.ID.ID()] = true
+			seen[f.ID.ID()], inFile[f.ID.ID()] = string(js), true
 			all = append(all, f)
 		}
 	}
@@ -213,6 +237,16 @@ func check(c Case) vlib.Outcome {
 			}
 		}
 	}
+	if overlapping {
+		// the quantifier is over partitions; for points held by several files only what the
+		// statement says of them is demanded: lookups by ID, and searches in ID order without duplicates
+		for k := range want {
+			if !(strings.HasPrefix(k, "has ") || strings.HasPrefix(k, "feature ") || strings.HasPrefix(k, "location ") || strings.HasPrefix(k, "find ") || strings.HasPrefix(k, "find-features ")) {
+				delete(want, k)
+				delete(got, k)
+			}
+		}
+	}
 	if d := wm.Diff(want, got, "single build", "merged files"); d != "" {
 		return vlib.Fail("world merged from %d files (overlay %v, merge order %v) differs from a single index of the same features:\n%s", len(c.Files), c.Overlay, idx, d)
 	}
@@ -223,12 +257,15 @@ func check(c Case) vlib.Outcome {
 			sharedNS = true
 		}
 	}
-	out := vlib.Outcome{NonTrivial: hasOverlay || sharedNS, Classes: []string{fmt.Sprintf("files=%d", len(c.Files))}}
+	out := vlib.Outcome{NonTrivial: hasOverlay || sharedNS || overlapping, Classes: []string{fmt.Sprintf("files=%d", len(c.Files))}}
 	if hasOverlay {
 		out.Classes = append(out.Classes, "overlay-file")
 	}
 	if sharedNS {
 		out.Classes = append(out.Classes, "namespace-split-across-files")
+	}
+	if overlapping {
+		out.Classes = append(out.Classes, "point-in-several-files")
 	}
 	if idx[0] != 0 {
 		out.Classes = append(out.Classes, "base-not-merged-first")
@@ -238,6 +275,6 @@ func check(c Case) vlib.Outcome {
 
 func TestProp(t *testing.T) {
 	vlib.Run(t, vlib.Config{ID: "C17", Name: "merged-files", CaseTimeout: 240e9,
-		Rule: "a generated valid base file plus 1-3 further files: independent sets in other namespaces, independent sets in the same namespaces with other IDs, or overlay files (paths over base points, areas over base closed paths, relations over base features) built with BuildOverlayInMemory against the base world; all merged into one compact world in a generated order; oracle: the canonical observation of every read query equals that of a single compact index built from all the features; non-trivial = a namespace split across files or an overlay file"},
+		Rule: "a generated valid base file plus 1-3 further files: independent sets in other namespaces, independent sets in the same namespaces with other IDs, overlapping extracts (identical copies of some base points plus points of their own; for these only lookups by ID and searches are compared, since the quantifier is over partitions), or overlay files (paths over base points, areas over base closed paths, relations over base features) built with BuildOverlayInMemory against the base world; all merged into one compact world in a generated order; oracle: the canonical observation of every read query equals that of a single compact index built from all the features; non-trivial = a namespace split across files, an overlay file or a point held by several files"},
 		gen, check)
 }
